@@ -65,7 +65,7 @@ def gen_cases(tier, seed):
             for order in orders:
                 cases.append({'adapter': 'schedule_rpc', 'depth': depth, 'order': list(order), 'outcome': oc, 'thread': False})
                 cases.append({'adapter': 'schedule_rpc', 'depth': depth, 'order': list(order), 'outcome': oc, 'thread': True})
-    for scen in ('run', 'run-twice', 'cancel-run', 'raise', 'raise-run', 'args', 'cancel-twice-run'):
+    for scen in ('run', 'run-twice', 'cancel-run', 'raise', 'raise-run', 'args', 'cancel-twice-run', 'cancel-inside-run', 'cancel-inside-raise'):
         cases.append({'adapter': 'action', 'scenario': scen, 'depth': 1, 'order': [], 'outcome': ['value', 1], 'thread': False})
     return cases
 
@@ -280,15 +280,32 @@ def run_action(case):
     calls = []
     viol = []
 
+    holder = {}
+
     def fn(*args, **kwargs):
         calls.append((args, kwargs))
-        if scen.startswith('raise'):
+        if scen.startswith('cancel-inside'):
+            holder['cancel_returned'] = holder['action'].cancel()  # re-entrant cancel from code the action itself triggered
+        if scen.startswith('raise') or scen == 'cancel-inside-raise':
             raise AdapterError('action-failed')
         return ['ran', list(args), kwargs]
 
     try:
         action = futures.CancellableAction(fn, cookie='c')
-        if scen in ('run', 'run-twice', 'raise', 'raise-run'):
+        holder['action'] = action
+        if scen.startswith('cancel-inside'):
+            # the function ran, so its outcome must be reported through the action and run() must not blow up
+            try:
+                action.run()
+            except Exception as exc:  # noqa: BLE001
+                viol.append(V('action-run-raised', 'action-run-raised:' + scen, 'run() raised %r when the action was cancelled from inside its own function' % (exc,)))
+            got = _describe(action)
+            exp = ['exception', AdapterError('action-failed')] if scen.endswith('raise') else ['result', ['ran', [], {}]]
+            if got != exp:
+                viol.append(V('action-outcome', 'action-outcome:' + scen, 'the function ran but the action reports %r, expected %r' % (got, exp)))
+            if len(calls) != 1:
+                viol.append(V('action-call-count', 'action-call-count:' + scen, 'function called %d times' % len(calls)))
+        elif scen in ('run', 'run-twice', 'raise', 'raise-run'):
             action.run()
             if len(calls) != 1:
                 viol.append(V('action-call-count', 'action-call-count:' + scen, 'function called %d times by one run()' % len(calls)))
